@@ -70,7 +70,14 @@ class G:
         frames = []
         for f in rng.sample(FRAMES, rng.choice([1, 2, 2, 3])):
             frames.append([f, [self.decl()[1] for _ in range(rng.choice([1, 1, 2]))]])
-        return {'k': 'keyframes', 'name': rng.choice(['', '', '', '', '', '-webkit-', '-moz-']) + 'keyframes', 'params': 'k%d' % self.kf, 'frames': frames}
+        name = rng.choice(['', '', '', '', '', '-webkit-', '-moz-']) + 'keyframes'
+        node = {'k': 'keyframes', 'name': name, 'params': 'k%d' % self.kf, 'frames': frames}
+        if rng.random() < 0.3:
+            # the same name, written with interpolation (the evaluated name decides that this is @keyframes)
+            node['written'] = (rng.choice(['-#{webkit}-keyframes', '-#{"webkit"}-keyframes', '-webkit-key#{frames}']) if name.startswith('-webkit') else
+                               rng.choice(['-#{moz}-keyframes', '-moz-#{keyframes}']) if name.startswith('-moz') else
+                               rng.choice(['key#{frames}', '#{keyframes}', 'keyf#{ra}mes']))
+        return node
 
     def nested_sel(self, parents, implicit, leaf):
         """selector of a style rule (or of `@at-root <selector>`) inside parents -> (list, forms, resolved)"""
@@ -184,13 +191,18 @@ def at_text(node):
     return '@%s%s' % (node['name'], (' ' + node['params']) if node['params'] else '')
 
 
+def at_src(node):
+    """the at-rule head as written in the source (the name may be spelled with interpolation)"""
+    return '@%s%s' % (node.get('written') or node['name'], (' ' + node['params']) if node['params'] else '')
+
+
 def render(node, frng):
     if isinstance(node, list):
         return 'p%d: %d;' % (node[1], node[1])
     k = node['k']
     if k == 'keyframes':
         frames = ' '.join('%s { %s }' % (f, ' '.join('p%d: %d;' % (n, n) for n in ns)) for f, ns in node['frames'])
-        return '%s { %s }' % (at_text(node), frames)
+        return '%s { %s }' % (at_src(node), frames)
     sep = frng.choice([' ', ' ', '\n'])
     body = sep.join(render(it, frng) for it in node['items'])
     if k == 'rule':
